@@ -1,6 +1,6 @@
 PROPS["C18"] = {
-    "streams": ["c18"],
-    "rule": "ver-cmp / ver-tri: real (*couchbase.Version).Higher/Equal/Lower on both orders of a pair / all six ordered pairs of a triple; "
+    "streams": ["c18", "c18gate"],
+    "rule": "c18gate (L2): the real dcp.NewDcp against a simulated node reporting a version text (GET /pools) and a storage back end: the DCP_CONTROL keys the library negotiates (enable_expiry_opcode = gate 6.5.0, change_streams = gate 7.2.0 on Magma) for every version within one step of the two gates in the text forms a server reports, both back ends, and random versions; | ver-cmp / ver-tri: real (*couchbase.Version).Higher/Equal/Lower on both orders of a pair / all six ordered pairs of a triple; "
             "ver-gate: the exported gate expressions of newDcp plus the decision the real stream.NewStream takes, for two versions; "
             "ver-parse / ver-render: nodeVersionFromString through the exported NewHTTPClient(...).GetVersion() against a local /pools server; "
             "ver-gates-src: truth tables of the three gate conditions read from dcp.go and stream/stream.go with go/parser. "
